@@ -12,7 +12,8 @@ callers, thread entries and externally callable API start with nothing held.
 from .cfg import Flow
 from .program import plain
 
-GUARD_TYPES = ("std::lock_guard<", "std::unique_lock<", "std::scoped_lock<", "const std::lock_guard<")
+GUARD_TYPES = ("std::lock_guard<", "std::unique_lock<", "std::scoped_lock<", "const std::lock_guard<", "std::shared_lock<", "const std::shared_lock<")
+SHARED = "#shared"      # suffix of a mutex id held in shared (reader) mode
 
 
 def _mutex_of(f, node):
@@ -27,8 +28,11 @@ def _mutex_of(f, node):
 
 
 class LockAnalysis:
-    def __init__(self, prog, cg):
+    def __init__(self, prog, cg, ignore_callers=()):
         self.prog, self.cg = prog, cg
+        # call sites inside these functions do not count for entry-held sets (constructors and
+        # destructors run before the threads exist / after they were joined)
+        self.ignore_callers = set(ignore_callers)
         self._flow = {}
         self._guards = {}
         self._entry = None
@@ -50,7 +54,8 @@ class LockAnalysis:
                 if not args and c["k"] == "initlist":
                     args = c.get("kids", [])
                 if args:
-                    res[v["decl"]] = (d, _mutex_of(f, args[0]), len(args) > 1 and "defer_lock" in f.text(args[1]))
+                    m = _mutex_of(f, args[0]) + (SHARED if "shared_lock<" in t else "")
+                    res[v["decl"]] = (d, m, len(args) > 1 and "defer_lock" in f.text(args[1]))
         self._guards[f.usr] = res
         return res
 
@@ -101,7 +106,7 @@ class LockAnalysis:
         entry = {}
         root_set = set(roots) | {t for t, _, _ in cg.thread_roots}
         for u, f in P.fns.items():
-            callers = [e for e in cg.inn.get(u, []) if e.src != u]
+            callers = [e for e in cg.inn.get(u, []) if e.src != u and e.src not in self.ignore_callers]
             if u in root_set or not callers or f.kind in ("globalinit",):
                 entry[u] = frozenset()
             else:
@@ -114,7 +119,7 @@ class LockAnalysis:
             for u, f in P.fns.items():
                 if u in root_set:
                     continue
-                callers = [e for e in cg.inn.get(u, []) if e.src != u]
+                callers = [e for e in cg.inn.get(u, []) if e.src != u and e.src not in self.ignore_callers]
                 if not callers:
                     continue
                 acc = TOP
@@ -151,7 +156,7 @@ class LockAnalysis:
         P, cg = self.prog, self.cg
         acq = {}
         for u, f in P.fns.items():
-            acq[u] = {m for (_, m, _) in self.guard_vars(f).values()}
+            acq[u] = {m.replace(SHARED, "") for (_, m, _) in self.guard_vars(f).values()}
         changed = True
         while changed:
             changed = False
@@ -172,7 +177,9 @@ class LockAnalysis:
         for u, f in P.fns.items():
             gv = self.guard_vars(f)
             for decl, (dnode, m, deferred) in gv.items():
+                m = m.replace(SHARED, "")
                 for h in self.held(f, dnode, roots):
+                    h = h.replace(SHARED, "")
                     if h != m:
                         edges.setdefault((h, m), "%s acquires %s at %s holding %s" % (f.pq, m.split("::")[-1], f.loc(dnode), h.split("::")[-1]))
             for e in cg.out.get(u, ()):
@@ -180,6 +187,7 @@ class LockAnalysis:
                     continue
                 node = e.node[1:] if isinstance(e.node, tuple) else e.node
                 for h in self.held(f, node, roots):
+                    h = h.replace(SHARED, "")
                     for m in acq[e.dst]:
                         if h != m:
                             edges.setdefault((h, m), "%s calls %s holding %s (callee may take %s)" % (
@@ -223,3 +231,147 @@ class LockAnalysis:
                 if n["k"] == "member" and n.get("qname") == field_qname:
                     out.append((f, i))
         return out
+
+
+def access_is_write(f, i, fq):
+    """Is the member node i (naming field fq) written through (assignment, ++, mutator call, out-param)?"""
+    from .callgraph import node_writes
+    par = f.parent.get(i)
+    if par is not None and ("F:" + fq) in node_writes(f, par):
+        return True
+    for a in list(f.ancestors(i))[:3]:
+        if ("F:" + fq) in node_writes(f, a):
+            return True
+    return False
+
+
+def alias_write_nodes(f, fq):
+    """Writes to elements of field fq made through a local iterator / reference / pointer that was
+    obtained from the field (auto it = fld.find(k); it->second += v).  Returns node ids."""
+    aliases = set()
+    for d in f.all("decl"):
+        for v in f.nodes[d].get("vars", []):
+            t = v.get("type", "")
+            if "init" not in v or v["init"] is None or v["init"] < 0:
+                continue
+            if not ("iterator" in t or t.rstrip().endswith(("&", "*")) or "reference" in t):
+                continue
+            if t.startswith("const ") and t.rstrip().endswith("&") and "iterator" not in t:
+                continue
+            r = f.root_ref(v["init"])
+            rn = f.nodes[f.strip(r)] if r is not None and r >= 0 else {}
+            # root_ref follows member bases up to 'this'; look for the field on the way instead
+            hit = any(f.nodes[x]["k"] == "member" and f.nodes[x].get("qname") == fq for x in f.walk(v["init"]))
+            if hit:
+                aliases.add(v["decl"])
+    out = []
+    if not aliases:
+        return out
+    for i, n in enumerate(f.nodes):
+        tgt = None
+        if n["k"] == "bin" and n.get("op") in ("=", "+=", "-=", "*=", "/=", "|=", "&=", "^=", "<<=", ">>=", "%="):
+            tgt = n["l"]
+        elif n["k"] == "un" and n.get("op") in ("++", "--"):
+            tgt = n["sub"]
+        elif n["k"] == "call" and n.get("op") in ("=", "+=", "-=", "++", "--") and "recv" in n:
+            tgt = n["recv"]
+        if tgt is None or f.pos_of(i) is None:
+            continue
+        ts = f.strip(tgt)
+        if f.nodes[ts]["k"] == "ref":
+            continue            # re-seating the iterator itself is no write to the container
+        r = f.root_ref(tgt)
+        if r is None or r < 0:
+            continue
+        rn = f.nodes[f.strip(r)]
+        if rn["k"] == "ref" and rn.get("decl") in aliases:
+            out.append(i)
+    return out
+
+
+def effective_locks(held, is_write):
+    """Mutexes that protect this access: exclusive holds always, shared holds only for reads."""
+    out = set()
+    for h in held:
+        if h.endswith(SHARED):
+            if not is_write:
+                out.add(h[:-len(SHARED)])
+        else:
+            out.add(h)
+    return out
+
+
+def shared_field_audit(prog, cg, la, class_qnames, thread_roots, self_concurrent=(), exclude_ctor_dtor=True):
+    """Generic data-race rule for the fields of classes whose objects are used by several threads.
+
+    thread_roots: {label: root usr}.  A function belongs to thread `label` if it is reachable from
+    that root; everything reachable from no listed root belongs to 'main'.  A field that is accessed
+    from two different threads (or from a self-concurrent one), with at least one write outside
+    constructors/destructors, must be atomic, a mutex/condition variable, const, or all its accesses
+    must hold one common mutex.  Returns [(field qname, verdict, detail, witness accesses)]."""
+    from .callgraph import node_writes
+    reach = {lab: cg.reach([u]) for lab, u in thread_roots.items()}
+    out = []
+    audited = set(class_qnames)
+    # functions that only ever run as part of construction/destruction of an audited class
+    cd = {f.usr for f in prog.fns.values() if f.kind in ("ctor", "dtor") and f.cls in audited}
+    only_cd = set(cd)
+    changed = True
+    while changed:
+        changed = False
+        for u, f in prog.fns.items():
+            if u in only_cd or u in set(thread_roots.values()):
+                continue
+            callers = [e.src for e in cg.inn.get(u, []) if e.src != u]
+            if callers and all(c in only_cd for c in callers) and f.cls in audited:
+                only_cd.add(u)
+                changed = True
+    for cq in class_qnames:
+        c = prog.classes.get(cq)
+        if not c:
+            out.append((cq, "broken", "class not found", []))
+            continue
+        for fld in c.get("fields", []):
+            t = fld.get("type", "")
+            if fld.get("static") and fld.get("const"):
+                continue
+            if any(x in t for x in ("std::atomic", "mutex", "std::condition_variable", "std::thread")) or t.startswith("const "):
+                continue
+            if t in audited or ("Oomd::" + t) in audited or any(t == a.split("::")[-1] for a in audited):
+                continue     # an aggregate whose own fields are audited
+            fq = fld["qname"]
+            acc = []     # (thread label, fn, node, is_write, held)
+            for f, i in la.field_accesses(fq):
+                o = f
+                while o.kind == "lambda" and o.d.get("parentfn") in prog.fns:
+                    o = prog.fns[o.d["parentfn"]]
+                if exclude_ctor_dtor and (f.usr in only_cd or (o.usr in only_cd and f.usr not in set(thread_roots.values()))):
+                    continue
+                labs = [lab for lab, r in reach.items() if f.usr in r] or ["main"]
+                w = access_is_write(f, i, fq)
+                held = effective_locks(la.held(f, i), w)
+                for lab in labs:
+                    acc.append((lab, f, i, w, held))
+            for f in prog.fns.values():
+                if exclude_ctor_dtor and f.usr in only_cd:
+                    continue
+                for i in alias_write_nodes(f, fq):
+                    labs = [lab for lab, r in reach.items() if f.usr in r] or ["main"]
+                    held = effective_locks(la.held(f, i), True)
+                    for lab in labs:
+                        acc.append((lab, f, i, True, held))
+            if not acc:
+                continue
+            labs = {a[0] for a in acc}
+            concurrent = len(labs) > 1 or bool(labs & set(self_concurrent))
+            if not concurrent or not any(a[3] for a in acc):
+                continue
+            common = None
+            for a in acc:
+                common = set(a[4]) if common is None else (common & set(a[4]))
+            if common:
+                out.append((fq, "ok", "shared by %s, always under %s" % (sorted(labs), sorted(x.split("::")[-1] for x in common)), []))
+            else:
+                wit = ["%s: %s at %s holding %s" % (a[0], "write" if a[3] else "read", a[1].loc(a[2]), sorted(x.split("::")[-1] for x in a[4]) or "nothing") for a in acc[:6]]
+                out.append((fq, "race", "accessed from threads %s with a write and no common lock" % sorted(labs), wit))
+    return out
